@@ -819,6 +819,32 @@ theorem c33_updates_are_source (m : MemberState C) (acc : Access C) :
     have : m.mc % 2 = 0 ∨ m.mc % 2 = 1 := by omega
     rcases this with h | h <;> simp [h]
 
+/-- The merge that builds the state an operation is judged on is the loop body of `state::merge` as it
+    stands in `state.rs` now (same tie as `c32_merge_is_source`): "the side with the higher member counter
+    wins completely, the access counter only breaks ties" cannot be edited without breaking this. -/
+theorem c33_merge_is_source (lt : Access C → Access C → Bool) (m1 m : MemberState C) :
+    ((mergeMember lt m1 m).mc, (mergeMember lt m1 m).access, (mergeMember lt m1 m).ac)
+      = mergeMemberT lt m1.mc m1.ac m1.access m.mc m.ac m.access := by
+  obtain ⟨amc, aacc, aac⟩ := m1
+  obtain ⟨bmc, bacc, bac⟩ := m
+  unfold mergeMember mergeMemberT
+  simp only
+  rcases Nat.lt_trichotomy amc bmc with h | h | h
+  · have h1 : ¬ amc > bmc := by omega
+    have h2 : ¬ amc = bmc := by omega
+    simp [h1, h2]
+  · subst h
+    simp only [gt_iff_lt, Nat.lt_irrefl, if_false, if_true]
+    rcases Nat.lt_trichotomy aac bac with g | g | g
+    · have g1 : ¬ bac < aac := by omega
+      have g2 : ¬ aac = bac := by omega
+      simp [g1, g2]
+    · subst g
+      by_cases hl : lt aacc bacc = true <;> simp [hl]
+    · simp [g]
+  · have h2 : ¬ amc = bmc := by omega
+    simp [h]
+
 /-- `validate` rejects in the order duplicate → manager group → cycle → state change error, judges the
     action on `temp_y.inner.current_state()`, the manager-group guard covers exactly `Add | Promote`;
     `apply_action` tests the filter before applying the action and `expect`s the group for non-create
